@@ -115,14 +115,18 @@ static CMR_ERROR op_tu(CMR* cmr, TOKS* t, OUT* o)
   HCALL( in_chrmat(cmr, t, &A) );
   if (t->bad) { CMRchrmatFree(cmr, &A); return CMR_OKAY; }
   CMR_TU_PARAMS params;
+  memset(&params, 0, sizeof(params));
   tu_params_from_mask(&params, mask);
   bool is = false;
   CMR_SEYMOUR_NODE* root = NULL;
   CMR_SUBMAT* sub = NULL;
   uint64_t s0 = sum_chrmat(A);
+  CMR_TU_PARAMS params0 = params;
   CMR_ERROR e = CMRtuTest(cmr, A, &is, WANT_TREE(mask) ? &root : NULL, WANT_SUB(mask) ? &sub : NULL, &params, NULL,
     h_time_limit);
   if (sum_chrmat(A) != s0) h_input_modified = 1;
+  /* the parameter object is an input, too: it may be reused by the caller for the next call */
+  if (memcmp(&params0, &params, sizeof(params))) h_input_modified = 1;
   int undet = 0;
   if (!e && !is && ((mask >> 6) & 7))
   {
@@ -156,15 +160,18 @@ static CMR_ERROR op_regular(CMR* cmr, TOKS* t, OUT* o)
   HCALL( in_chrmat(cmr, t, &A) );
   if (t->bad) { CMRchrmatFree(cmr, &A); return CMR_OKAY; }
   CMR_REGULAR_PARAMS params;
+  memset(&params, 0, sizeof(params));
   CMRregularParamsInit(&params);
   seymour_params_from_mask(&params.seymour, mask);
   bool is = false;
   CMR_SEYMOUR_NODE* root = NULL;
   CMR_MINOR* minor = NULL;
   uint64_t s0 = sum_chrmat(A);
+  CMR_REGULAR_PARAMS params0 = params;
   CMR_ERROR e = CMRregularTest(cmr, A, &is, WANT_TREE(mask) ? &root : NULL, WANT_SUB(mask) ? &minor : NULL, &params,
     NULL, h_time_limit);
   if (sum_chrmat(A) != s0) h_input_modified = 1;
+  if (memcmp(&params0, &params, sizeof(params))) h_input_modified = 1;
   int undet = 0;
   if (!e && !is && ((mask >> 6) & 7))
   {
